@@ -195,8 +195,12 @@ func (u *Universe) vsel(v *parser.VectorSelector, filters []*labels.Matcher, fil
 	if filtered {
 		flt = "(Some " + u.matchers(filters) + ")"
 	}
-	return fmt.Sprintf("(mkVS %s %s %s %s %s)", u.matchers(v.LabelMatchers),
-		coqZ(v.OriginalOffset.Milliseconds()), coqZ(v.Offset.Milliseconds()), coqOptZ(v.Timestamp), flt)
+	syn := "0%N" // the parser's Name field: empty when the metric name is written as a matcher
+	if v.Name != "" {
+		syn = coqN(u.Values.ID(v.Name))
+	}
+	return fmt.Sprintf("(mkVS %s %s %s %s %s %s)", u.matchers(v.LabelMatchers),
+		coqZ(v.OriginalOffset.Milliseconds()), coqZ(v.Offset.Milliseconds()), coqOptZ(v.Timestamp), flt, syn)
 }
 
 func cardName(c parser.VectorMatchCardinality) string {
